@@ -221,6 +221,7 @@ def c15b(ck, prog):
             ck.ob(R, tag + ":params-first", oko, ih.loc(None), "" if oko else "request items are documented before the path parameters: unnamed path parameters would be named out of order", how="param(..)* then inbound(..)*")
     # gen_openapi_doc: names, components
     g = prog.one(r"^ohkami::router::r#final::Router::gen_openapi_doc$")
+    g = prog.inlined(g, 1, r"core::str::<impl str>::strip_prefix$")      # the route -> template conversion may be a helper
     ap = g.calls_to(r"paths::Operation::assign_path_param_name$")
     ok = len(ap) == 1
     if ok:
@@ -245,7 +246,16 @@ def c15b(ck, prog):
             if a and "s" in a:
                 lits.append(a["s"])
     aggs_txt = str(g.blocks)
-    ok = "'s': '{'" in aggs_txt and "'s': '}'" in aggs_txt and (":" in [a.get("ch") for c in g.calls() for a in g.const_args(c) if a and "ch" in a])
+    chars = [a.get("ch") for c in g.calls() for a in g.const_args(c) if a and "ch" in a]
+    # `{` and `}` as string pieces of a concat, or as characters pushed around the name
+    ok = (("'s': '{'" in aggs_txt and "'s': '}'" in aggs_txt) or ("{" in chars and "}" in chars)) and (":" in chars)
+    if ok and "{" in chars:
+        # pushed form: push('{') ; push_str(param) ; push('}') in that order under the strip_prefix(':') Some edge
+        rpo = g.rpo()
+        seq = [(c.name, (g.const_args(c) + [None, None])[1]) for c in sorted(g.calls(), key=lambda c: rpo.get(c.bb, 10 ** 6)) if c.name in ("push", "push_str") and re.search(r"String::(push|push_str)$", c.callee or "")
+               and paths.has_fact(g, prog, c.bb, lambda fa: fa.kind == "variant" and fa.allowed == {"Some"} and getattr(fa, "steps", None) and fa.steps[-1][0] == "call" and fa.steps[-1][1].name == "strip_prefix") is not None]
+        shape = [(n_, (a or {}).get("ch")) for n_, a in seq]
+        ok = shape == [("push", "{"), ("push_str", None), ("push", "}")]
     ck.ob(R, "doc:template-braces", ok, g.loc(None), "" if ok else "`:p` segments are not rewritten as `{p}`", how="strip_prefix(':') => \"{\" + p + \"}\"")
     # operations registered under the method's own lower-case name (C01-a table reused)
     rg = g.calls_to(r"paths::Operations::register$")
